@@ -613,7 +613,7 @@ def _order_source(e, local, depth=0):
         if nm in ("members", "memberships") and isinstance(e.func, ast.Attribute):
             return _order_source(e.func.value, local, depth + 1)
         return None
-    if isinstance(e, (ast.ListComp, ast.GeneratorExp)) and len(e.generators) == 1 and not e.generators[0].ifs:
+    if isinstance(e, (ast.ListComp, ast.GeneratorExp, ast.DictComp)) and len(e.generators) == 1 and not e.generators[0].ifs:
         return _order_source(e.generators[0].iter, local, depth + 1)
     if isinstance(e, ast.Attribute) and isinstance(e.value, ast.Name) and e.attr in ("nodes", "edges", "_node", "_edge"):
         return ("view", e.value.id, "nodes" if e.attr in ("nodes", "_node") else "edges")
@@ -813,3 +813,41 @@ def inline_stmt_helpers(repo, fn, depth=2):
     if counter[0] == 0:
         return fn
     return FunctionInfo(fn.module, fn.name, fn.qualname, node, fn.cls, fn.parent)
+
+
+def optional_id_truthiness(fn_node):
+    """Boolean-context uses of a parameter that defaults to None and is used as a *key of a network table* (an edge or
+    node ID handed in by the caller): 0, 0.0 and "" are admissible IDs, a truthiness test treats them as "no ID given"."""
+    a = fn_node.args
+    params = a.posonlyargs + a.args + a.kwonlyargs
+    defaults = [None] * (len(a.posonlyargs + a.args) - len(a.defaults)) + list(a.defaults) + list(a.kw_defaults)
+    optional = {p.arg for p, d in zip(params, defaults) if isinstance(d, ast.Constant) and d.value is None}
+    if not optional:
+        return
+    local = {}
+    for st in ast.walk(fn_node):
+        if isinstance(st, ast.Assign) and len(st.targets) == 1 and isinstance(st.targets[0], ast.Name):
+            local.setdefault(st.targets[0].id, []).append(st.value)
+    ids = set()
+    for n in ast.walk(fn_node):
+        if isinstance(n, ast.Subscript) and isinstance(n.value, ast.Attribute) and n.value.attr in ("_edge", "_node", "_edge_attr", "_node_attr") and isinstance(n.slice, ast.Name):
+            k = n.slice.id
+            if k in optional:
+                ids.add(k)
+            for v in local.get(k, []):
+                for x in ast.walk(v):
+                    if isinstance(x, ast.Name) and x.id in optional:
+                        ids.add(x.id)
+        if isinstance(n, ast.Call) and getattr(n.func, "id", None) == "update_uid_counter":
+            for x in n.args[1:]:
+                if isinstance(x, ast.Name) and x.id in optional:
+                    ids.add(x.id)
+
+    def is_p(e):
+        return isinstance(e, ast.Name) and e.id in ids
+
+    for n in ast.walk(fn_node):
+        if isinstance(n, (ast.If, ast.While, ast.IfExp)) and (is_p(n.test) or (isinstance(n.test, ast.UnaryOp) and isinstance(n.test.op, ast.Not) and is_p(n.test.operand))):
+            yield n.test
+        elif isinstance(n, ast.BoolOp) and any(is_p(v) or (isinstance(v, ast.UnaryOp) and isinstance(v.op, ast.Not) and is_p(v.operand)) for v in n.values):
+            yield n
